@@ -232,15 +232,29 @@ theorem noFault_moduleS (T : Bytes) (v : View) (hf : Obs.NoFault (fields T (Kind
   exact noFault_append (noFault_append (noFault_append (noFault_append (noFault_append (noFault_append (noFault_t _) hf)
     (noFault_fld _ _ hsz)) (noFault_t _)) (noFault_strS T v 16 v.n hd)) (noFault_t _)) (noFault_t _)
 
-theorem noFault_elfSectionsS (T : Bytes) (v : View) (hT : 20 ≤ T.length) : Obs.NoFault (elfSectionsS T v) := by
+theorem noFault_elfSectionsS (T : Bytes) (v : View) (hT : 20 + v.n ≤ T.length) : Obs.NoFault (elfSectionsS T v) := by
   unfold elfSectionsS
-  apply noFault_of_safe
-  apply safe_bind _ _ (safe_rd32 T 12 (by omega)); intro es _
-  apply safe_bind _ _ (safe_rd32 T 16 (by omega)); intro sh _
-  split
-  · exact safe_panic
-  · exact safe_bind _ _ (elfOpen_no_fault T v hT) (fun _ _ => safe_ok _)
-
+  have hs : Safe (elfSectionsOpen T v) := by
+    unfold elfSectionsOpen
+    apply safe_bind _ _ (safe_rd32 T 12 (by omega)); intro es _
+    apply safe_bind _ _ (safe_rd32 T 16 (by omega)); intro sh _
+    split
+    · exact safe_panic
+    · exact elfOpen_no_fault T v (by omega)
+  apply noFault_resO _ _ hs.1 hs.2
+  intro a ha
+  obtain ⟨num, es⟩ := a
+  have hopen : elfOpen T v = .ok (num, es) := by
+    unfold elfSectionsOpen rd32 at ha
+    rw [if_pos (by omega), if_pos (by omega)] at ha
+    simp only [Res.bind_ok] at ha
+    split at ha
+    · cases ha
+    · exact ha
+  have he := elfIter_end T v hT num es hopen
+  refine noFault_append (noFault_t _) (noFault_endS _ ?_ ?_)
+  · rcases he with h | h <;> rw [h] <;> simp
+  · rcases he with h | h <;> rw [h] <;> simp
 
 /-! ### modules -/
 
@@ -447,7 +461,8 @@ theorem sweepLoaded_no_fault (p : Profile) (R : Bytes) (h8 : R.length % 8 = 0) (
       | none => exact noFault_t _
       | some v =>
         have g := G _ v hg
-        have hf : 20 ≤ v.sov := g.fixed_le
+        have d := g.dst 20 1 rfl (by omega) (by omega)
+        have := g.size_le
         exact noFault_elfSectionsS _ v (by rw [g.len]; omega)
     | panic => exact noFault_t _
     | oob => exact absurd hg (NF _).1
